@@ -48,7 +48,13 @@ def codes(t: torch.Tensor):
 
 
 def snap(module):
-    return [[k, list(p.shape), codes(p.data)] for k, p in module.named_parameters()]
+    # remove_duplicate=False: tied weights (GPT wte / lm_head) are listed under each of their names, so the
+    # signature does not depend on whether a re-creation keeps the tie
+    return [[k, list(p.shape), codes(p.data)] for k, p in module.named_parameters(remove_duplicate=False)]
+
+
+def snap_state(module):
+    return [[k, list(v.shape), codes(v.data.float())] for k, v in module.state_dict().items()]
 
 
 def snap_buffers(module):
@@ -198,6 +204,13 @@ class C04(vlib.Driver):
             while rng.random() < 0.4 or not new:
                 new.append(rnd_layer(len(new) + 10))           # layer added
             cases.append({"kind": "unit", "mode": mode, "old": old, "new": new})
+            if i % 2 == 0:
+                cases.append({"kind": "unit", "mode": "load", "old": old, "new": new})
+                cases.append({"kind": "unit", "mode": "load", "old": new, "new": [list(l) for l in new]})
+        for (i0, o0, i1, o1) in itertools.product(range(1, 3), repeat=4):
+            cases.append({"kind": "unit", "mode": "load",
+                          "old": [["mlp_linear_layer_1", ["linear", i0, o0]], ["cnn_layer_norm_1", ["batchnorm", o0]]],
+                          "new": [["mlp_linear_layer_1", ["linear", i1, o1]], ["cnn_layer_norm_1", ["batchnorm", o1]]]})
 
         # ---- end to end
         blocks = list(B.BLOCKS)
@@ -258,6 +271,19 @@ class C04(vlib.Driver):
         fill_distinct(old, 1, 1)
         fill_distinct(new, -1, -1)
         s_old, s_new = snap(old), snap(new)
+        if case["mode"] == "load":
+            # what EvolvableModule.clone / Mutations.reinit_from_mutated do with the freshly built module
+            for i, b in enumerate(old.buffers()):
+                b.data = torch.full_like(b.data, 1000 + i)
+            for i, b in enumerate(new.buffers()):
+                b.data = torch.full_like(b.data, -1000 - i)
+            s_old, s_new = snap_state(old), snap_state(new)
+            err = None
+            try:
+                new.load_state_dict(old.state_dict())
+            except RuntimeError as e:
+                err = f"RuntimeError: {str(e)[:160]}"
+            return {"old": s_old, "new": s_new, "res": snap_state(new), "err": err, "old_after": snap_state(old)}
         fn = EvolvableModule.preserve_parameters if case["mode"] == "preserve" else EvolvableCNN.shrink_preserve_parameters
         err, s_res = None, None
         try:
@@ -316,7 +342,13 @@ class C04(vlib.Driver):
                 B.train_forward(m, x)
             else:
                 raise ValueError(op)
-            y_a = B.forward(m, x)
+            try:
+                y_a = B.forward(m, x)
+            except Exception as e:
+                rec["raised"] = f"{type(e).__name__}: {str(e)[:200]}"
+                rec["raised_in"] = ["forward"]
+                obs["steps"].append(rec)
+                break
             p_a, b_a = snap(m), snap_buffers(m)
             rec["same_arch"] = canon(m.init_dict) == arch_b
             rec["after"] = p_a
@@ -330,15 +362,30 @@ class C04(vlib.Driver):
             obs["steps"].append(rec)
         return obs
 
+    def _known(self):
+        if not hasattr(self, "_known_cache"):
+            self._known_cache = vlib.load_known()[0]
+        return self._known_cache
+
     # ---------------------------------------------------------------- model term
     def coq_term(self, case, obs):
         if case["kind"] == "unit":
+            if case["mode"] == "load":
+                return (f"check_load {cq_named(obs['old'])} {cq_named(obs['new'])} {cq_named(obs['res'])} "
+                        f"{'true' if obs['err'] else 'false'}")
             if case["mode"] == "preserve":
                 if obs["res"] is None:
                     return "false"
                 return f"check_preserve {cq_named(obs['old'])} {cq_named(obs['new'])} {cq_named(obs['res'])}"
             res = "None" if obs["res"] is None else f"(Some {cq_named(obs['res'])})"
             return f"check_shrink {cq_named(obs['old'])} {cq_named(obs['new'])} {res}"
+        # The model describes the repaired semantics. Where the oracle reports a failing step that is a LISTED
+        # known finding (defect not repaired on this tree yet), the chain is compared up to that step only;
+        # any other oracle failure leaves the comparison in place (it is reported with its input anyway).
+        upto = len(obs["steps"])
+        vs = self.oracle(case, obs)
+        if vs and all(vlib.match_known(self.pid, v.signature, self._known()) is not None for v in vs):
+            upto = min(getattr(v, "step", upto) for v in vs)
         # identical snapshots (clone, no-op mutation, training-mode forward) are bound once
         names, binds = {}, []
 
@@ -350,7 +397,7 @@ class C04(vlib.Driver):
             return names[k]
         init = ref(obs["init"])
         steps = []
-        for op, rec in zip(case["ops"], obs["steps"]):
+        for op, rec in list(zip(case["ops"], obs["steps"]))[:upto]:
             if "raised" in rec:
                 break
             a = ref(rec["after"])
@@ -401,6 +448,15 @@ class C04(vlib.Driver):
         out = []
         if case["kind"] == "unit":
             mode = case["mode"]
+            if mode == "load":
+                same = self._sig(obs["old"]) == self._sig(obs["new"])
+                if same and (obs["err"] or obs["res"] != obs["old"]):
+                    out.append(Violation("load", "unit:load:same-signature-not-faithful",
+                                         f"load_state_dict between identical signatures: err={obs['err']}, equal={obs['res'] == obs['old']}"))
+                if not same and not obs["err"]:
+                    out.append(Violation("load", "unit:load:mismatch-silent",
+                                         "load_state_dict between different signatures did not raise: clone() could silently differ"))
+                return out
             if obs["res"] is None:
                 # inside the guard the functions must not fail
                 out.append(Violation("error", f"unit:{mode}:error", f"{mode} raised {obs['err']} on old={case['old']} new={case['new']}"))
@@ -416,9 +472,18 @@ class C04(vlib.Driver):
         for oi, (op, rec) in enumerate(zip(case["ops"], obs["steps"])):
             where = f"{blk} step {oi} {op}"
             if "raised" in rec:
-                if rec["raised_in"]:
-                    out.append(Violation("error", f"e2e:error-carrying-weights:{blk}",
+                exc = rec["raised"].split(":")[0]
+                if rec["raised_in"] == ["forward"]:
+                    out.append(Violation("forward-raises", f"e2e:forward-raises:{blk}:{exc}",
+                                         f"{where}: the forward pass fails after the operation: {rec['raised']}"))
+                elif rec["raised_in"] and op[0] != "mut":
+                    out.append(Violation(f"{op[0]}-raises", f"e2e:{op[0]}-raises:{blk}:{exc}",
+                                         f"{where}: {op[0]} fails: {rec['raised']}"))
+                elif rec["raised_in"]:
+                    out.append(Violation("error", f"e2e:mutation-raises-carrying-weights:{blk}:{exc}",
                                          f"{where}: {rec['raised']} raised inside {rec['raised_in']}"))
+                for v in out:
+                    v.step = oi
                 break
             if op[0] in ("mut", "recreate"):
                 for clause, k, detail in self.common_slice_violations(cur, rec["after"]):
@@ -447,9 +512,11 @@ class C04(vlib.Driver):
             elif op[0] == "train":
                 if not rec["params_equal"]:
                     out.append(Violation("harness", "harness-error:train-forward-changed-parameters", where, found_input=False))
-            cur = rec["after"]
             if out:
+                for v in out:
+                    v.step = oi
                 break
+            cur = rec["after"]
         return out
 
     # ---------------------------------------------------------------- evidence helpers
@@ -498,7 +565,7 @@ class C04(vlib.Driver):
         cur = self._sig(obs["init"])
         for op, rec in zip(case["ops"], obs["steps"]):
             if "raised" in rec:
-                labs.append(f"op=mut:{op[1].split('.')[-1]}:raised-{'while-carrying-weights' if rec['raised_in'] else 'elsewhere(C03)'}")
+                labs.append(f"op={op[0]}:{op[1].split('.')[-1] if op[0] == 'mut' else ''}:raised-{'in-' + rec['raised_in'][0] if rec['raised_in'] else 'elsewhere(C03)'}")
                 break
             if op[0] == "mut":
                 ch = "arch-changed" if self._sig(rec["after"]) != cur else ("arch-same" if rec["same_arch"] else "arch-same-signature")
